@@ -683,16 +683,34 @@ func permCases(rng *vlib.Rng, emit permEmit) int {
 			if ambiguousFirst[strings.Fields(w.chunks[0].chunk)[0]] {
 				tags = append(tags, "ambiguous-first")
 			}
-			short := sp.prop + ": " + w.value()
+			// The meaning (m) is built from VALUES; the shorthand text may spell every number another way
+			// (0 = 0.0 = 0e0 = +0 = .0, 10px = 10.0px = 1e1px, 30% = 30.0%): half of the pairs.  Plain numbers
+			// are left alone in chunks that set an <integer> longhand (column-count, font-weight).
+			texts := make([]string, len(w.chunks))
+			respell := r.Bool()
+			for j, c := range w.chunks {
+				texts[j] = c.chunk
+				if respell {
+					plain := true
+					for _, st := range c.sets {
+						if integerProps[st[0]] {
+							plain = false
+						}
+					}
+					spl := &spell{r: r, num: true, numPlain: plain}
+					texts[j] = strings.TrimSpace(spl.render(valueTokens(sp.prop, c.chunk)))
+				}
+			}
+			if strings.Join(texts, " ") != w.value() {
+				tags = append(tags, "respelled")
+			}
+			short := sp.prop + ": " + strings.Join(texts, " ")
 			a, b := short, joinDecls(m)
 			switch k := r.Intn(8); {
 			case k < 2 && len(w.chunks) >= 2:
 				// one component through a custom property: the pending-shorthand path
 				i := r.Intn(len(w.chunks))
-				parts := make([]string, len(w.chunks))
-				for j, c := range w.chunks {
-					parts[j] = c.chunk
-				}
+				parts := append([]string{}, texts...)
 				x := parts[i]
 				parts[i] = "var(--x)"
 				a = "--x: " + x + "; " + sp.prop + ": " + strings.Join(parts, " ")
